@@ -11,6 +11,7 @@ sys.setrecursionlimit(20000)
 
 P = "Cppcms.C11.Props."
 OBLIGATIONS = [
+    (P + "key_order_is_bytewise_lexicographic", "string_key::operator< as translated from the header is the bytewise lexicographic order on all byte strings incl. NUL: strict, total, equivalent iff identical; operator== is length+memcmp"),
     (P + "parse_total", "every byte string: parse returns none or a tree whose strings/keys are valid UTF-8 (RFC 3629), whose keys are unique and sorted, and whose depth is <= 512"),
     (P + "accepts_rfc8259", "every RFC 8259 document (independent inductive grammar, any whitespace, all escapes, paired surrogates, unique keys, numbers the conversion accepts) of depth <= 512 parses to the tree it denotes"),
     (P + "failed_parse_leaves_target", "value::load returns false => the target is unchanged; returns true => target = parsed tree"),
@@ -158,6 +159,19 @@ def rand_number_text(rng, quirks=False):
         s = rng.choice(("0" + s.lstrip("-"), s.split("e")[0].split("E")[0].split(".")[0] + ".", "-." + "5", "." + "5", "+" + s.lstrip("-"), s + "e", s + "e+",
                         "00", "-", "-e5", "1.e5", "1.2.3", "1e5e5", "0x10", "1E5", "-0", "-0.0e-0", "1e+-5", "Infinity", "NaN", "1_000"))
     return s.encode()
+
+
+def nul_key_family(rng):
+    """member names that share a prefix up to an embedded NUL and differ after it (or only in length)"""
+    pre = [rng.randrange(0x61, 0x7B) for _ in range(rng.randrange(0, 3))]
+    fam = [pre + [0] + [rng.randrange(0x61, 0x7B)] for _ in range(rng.randrange(2, 5))]
+    fam += [pre + [0], pre + [0, 0], pre, pre + [0, 0x10FFFF], pre + [0, 0xE9], [0], [0, 0], []]
+    out, seen = [], set()
+    for k in fam:
+        if tuple(k) not in seen:
+            seen.add(tuple(k)); out.append(k)
+    rng.shuffle(out)
+    return out[:rng.randrange(2, len(out) + 1)]
 
 
 def gen_tree(rng, depth, budget):
@@ -433,6 +447,28 @@ def py_oracle(doc):
     return ("ok", " ".join(out))
 
 
+def api_expected(words):
+    n = int(words[0]); i = 1
+    last = {}
+
+    def skip(i):
+        k = words[i]
+        if k in "untf":
+            return i + 1
+        if k in "ds":
+            return i + 2
+        cnt = int(words[i + 1]); i += 2
+        for _ in range(cnt):
+            if k == "o":
+                i += 1
+            i = skip(i)
+        return i
+    for _ in range(n):
+        key = unhex(words[i]); j = skip(i + 1)
+        last[key] = " ".join(words[i + 1:j]); i = j
+    return " ".join(["o", str(len(last))] + [hx(k) + " " + last[k] for k in sorted(last)])
+
+
 def expected_get(ty, b):
     """independent statement of 'returns the exact number or throws' for integer types"""
     lo, hi = INT_TYPES[ty]
@@ -484,7 +520,7 @@ FINDINGS = {
 
 def gen_cases(c, scale):
     rng = c.rng
-    parse, write, nums, gets, loads = [], [], [], [], []
+    parse, write, nums, gets, loads, apis = [], [], [], [], [], []
     # --- documents
     docs = []
     for n in (0, 1, 2, 3, 100, 510, 511, 512, 513, 514, 600):
@@ -506,6 +542,12 @@ def gen_cases(c, scale):
         depth = rng.choice((0, 1, 2, 3, 4, 6))
         t = gen_tree(rng, depth, [rng.choice((3, 8, 20, 60))])
         docs.append(ws(rng, 0.2) + render(rng, t, rng.choice((0.0, 0.1, 0.4))) + ws(rng, 0.2))
+    for _ in range(120 * scale):     # member names with embedded NULs (\u0000): distinct keys sharing a prefix up to the NUL
+        ms = [(k, gen_tree(rng, rng.choice((0, 0, 1)), [3])) for k in nul_key_family(rng)]
+        t = ("obj", ms)
+        if rng.random() < 0.3:
+            t = [t, ("obj", [(k, None) for k in nul_key_family(rng)])]
+        docs.append(render(rng, t, rng.choice((0.0, 0.2))))
     for _ in range(400 * scale):     # superset quirks and malformed strings
         t = gen_tree(rng, rng.choice((1, 2, 3)), [rng.choice((3, 8, 20))])
         docs.append(render(rng, t, 0.2, broken=rng.choice((0.0, 0.05, 0.2)), quirks=rng.choice((0.0, 0.3, 0.6))))
@@ -577,6 +619,25 @@ def gen_cases(c, scale):
             grp = locnums[i:i + 5]
             write.append(f"write {m} a {len(grp)} " + " ".join(f"d {bits(x):016x}" for x in grp))
             write.append(f"write {m} o 2 626967 d {bits(grp[0]):016x} 6c697374 a {len(grp)} " + " ".join(f"d {bits(x):016x}" for x in grp))
+    # keys with embedded NULs through the API: write + round trip (insert) and member-wise assembly (v[key]=child)
+    for _ in range(80 * scale):
+        fam = sorted("".join(chr(x) for x in k).encode("utf-8") for k in nul_key_family(rng))
+        body = []
+        for k in fam:
+            body += [hx(k)] + gen_value(rng, rng.choice((0, 0, 1)), [2], {})
+        write.append(f"write {rng.choice('01')} o {len(fam)} " + " ".join(body))
+        asg = list(fam) + [rng.choice(fam) for _ in range(rng.randrange(0, 3))]
+        rng.shuffle(asg)
+        body = []
+        for k in asg:
+            body += [hx(k)] + gen_value(rng, 0, [1], {})
+        apis.append(f"api {len(asg)} " + " ".join(body))
+    for _ in range(40 * scale):       # ordinary keys through v[key]=child as well (order of assignment is arbitrary)
+        ks = [rand_bytes_string(rng, rng.choice(("utf8", "ctl", "bad")))[:6] for _ in range(rng.randrange(1, 6))]
+        body = []
+        for k in ks:
+            body += [hx(k)] + gen_value(rng, rng.choice((0, 1)), [2], {})
+        apis.append(f"api {len(ks)} " + " ".join(body))
     for _ in range(1500 * scale):     # NumLaw / NumIdem on the real library: single numbers across the double range
         write.append(f"write 0 d {rand_double_bits(rng):016x}")
     for b in range(256):
@@ -619,7 +680,7 @@ def gen_cases(c, scale):
             getf.append(f"getf {ty} {bits(x):016x}")
     for _ in range(200 * scale):
         getf.append(f"getf {rng.choice(('float', 'double', 'ldouble'))} {rand_double_bits(rng, rng.random() < 0.1):016x}")
-    return parse, loads, write, nums, gets, getf
+    return parse, loads, write, nums, gets, getf, apis
 
 
 def main():
@@ -660,11 +721,11 @@ def main():
         streams = {"replay": [rp["case"]] if "case" in rp else []}
         getf = []
     else:
-        parse, loads, write, nums, gets, getf = gen_cases(c, scale)
+        parse, loads, write, nums, gets, getf, apis = gen_cases(c, scale)
         corpus = corpus_cases()
         for fid, ws_ in FINDINGS.items():
             corpus += [w for w, _ in ws_]
-        streams = {"corpus": corpus, "parse": parse, "load": loads, "write": write, "numbers": nums, "get": gets}
+        streams = {"corpus": corpus, "parse": parse, "load": loads, "write": write, "numbers": nums, "get": gets, "api": apis}
 
     if not (hbin and os.path.exists(model)):
         c.finish()
@@ -693,7 +754,7 @@ def main():
                 break
             o = out_i[k]
             w = cs.split()
-            if o.startswith(("variant-mismatch", "failed-parse-modified-target", "locale-not-restored", "exception", "overload")):
+            if o.startswith(("variant-mismatch", "api-alias", "failed-parse-modified-target", "locale-not-restored", "exception", "overload")):
                 bad.append((name, base + k, "public entry points disagree / exception escaped: " + o[:120]))
                 continue
             if w[0] == "parse":
@@ -730,6 +791,11 @@ def main():
                         # outside the hypotheses of write_parse_roundtrip_partial; the known findings say: rejected
                         if rt not in ("exact", "approx"):
                             bad.append((name, base + k, f"round trip outcome {rt} for a tree outside the theorem's hypotheses"))
+            elif w[0] == "api":
+                # independent statement: one member per distinct (byte-wise) key, holding the last value assigned to it
+                exp = api_expected(w[1:])
+                if o != exp:
+                    bad.append((name, base + k, "object assembled with v[key]=child: expected " + exp[:200]))
             elif w[0] == "get":
                 exp = expected_get(w[1], int(w[4], 16))
                 if o != exp:
